@@ -382,7 +382,7 @@ def mixed_modes(ctx, n):
                 if count == 2:
                     try:
                         alone = [T(data[k + j * L:k + (j + 1) * L]) for j in range(2)]
-                        if [repr(x) for x in alone] != [repr(x) for x in o.arr]:
+                        if [lib.stable_repr(x) for x in alone] != [lib.stable_repr(x) for x in o.arr]:
                             problems.append(f"{name}: array elements are not at k + j*len(T)")
                     except Exception:  # noqa: BLE001
                         pass
